@@ -94,10 +94,13 @@ def _depotdist(rc):
     return {"depot_distribution": rc.choice(["uniform", "center", "corner"])}
 
 
-def _box(rc):
-    if rc.random() < 0.85:
+def _box(rc, p=0.15, shifted=False):
+    if rc.random() >= p:
         return {}
-    lo, hi = rc.choice([(0.2, 0.8), (0.0, 2.0), (-1.0, 1.0)])
+    boxes = [(0.2, 0.8), (0.0, 2.0), (-1.0, 1.0)]
+    if shifted:  # boxes that do not contain the unit square: a separately drawn depot has to honour them too
+        boxes += [(2.0, 3.0), (0.0, 0.5), (0.25, 0.5)]
+    lo, hi = rc.choice(boxes)
     return {"min_loc": lo, "max_loc": hi}
 
 
@@ -123,7 +126,7 @@ def gen_cfg(name: str, rc: random.Random, tier: str) -> dict:
             if rc.random() < 0.2:
                 g.update(max_time=rc.choice([1000, 600.0]))
         elif "loc_distribution" not in g:
-            g.update(_box(rc))
+            g.update(_box(rc, 0.5, True) if "depot_distribution" in g else _box(rc))
     elif name == "op":
         pt = rc.choice(["dist", "dist", "unif", "const"])
         g.update(num_loc=_size(rc, tier), prize_type=pt, **_locdist(rc), **_depotdist(rc))
